@@ -14,7 +14,7 @@ for d in sorted(glob.glob('/verif/seeded/*/meta.json')):
                 r = l.strip().split()[1]
                 if r not in rules:
                     rules.append(r)
-    rows.append((name, m['property'], m.get('kind', 'defect'), (('silent' if m.get('silent') else 'NOISY') if m.get('kind') == 'refactoring' else ('DETECTED' if m.get('detected') else 'missed')), ', '.join(rules), first))
+    rows.append((name, m['property'], m.get('kind', 'defect'), ('not silent (documented limitation)' if m.get('kind') == 'refactoring-unsupported' else (('silent' if m.get('silent') else 'NOISY') if m.get('kind') == 'refactoring' else ('DETECTED' if m.get('detected') else 'missed'))), ', '.join(rules), first))
 with open('/verif/seeded/README.md', 'w') as f:
     f.write('# Seeded changes (from independent sub-agents; each confirmed in a scratch worktree)\n\n')
     f.write('| seed | property | kind | verdict of the check | rule(s) that fired | what was changed |\n|---|---|---|---|---|---|\n')
